@@ -26,7 +26,7 @@ import traceback
 from . import env
 
 MAX_VIOL_PER_SHARD = 40
-MAX_REPLAYS = 25
+MAX_REPLAYS = int(os.environ.get("VERIF_MAX_REPLAYS", "25"))
 
 
 def jdump(obj):
@@ -363,8 +363,10 @@ def run_property(prop, units, level, tier, seed, assumptions=(), nproc=None, onl
         # write replays round-robin over the classes so every class gets one
         order, seen_k = [], collections.Counter()
         for v in new_viol:
-            seen_k[(v["unit"], v["fkey"])] += 1
-            order.append((seen_k[(v["unit"], v["fkey"])], len(order), v))
+            # classes that differ only in a trailing [configuration label] share a round-robin slot
+            k = (v["unit"], v["fkey"].split("[")[0])
+            seen_k[k] += 1
+            order.append((seen_k[k], len(order), v))
         new_viol = [v for _a, _b, v in sorted(order, key=lambda t: (t[0], t[1]))]
         os.makedirs(rdir, exist_ok=True)
         seen = set()
